@@ -28,11 +28,11 @@ TRUSTED_BASE = ['Coq 8.16.1 kernel and its vm_compute (no native_compute, no ext
                 'hand-written Gallina model in coq/Model tied to the code only by the correspondence run',
                 'f32 arithmetic modelled by exact rationals; inputs chosen dyadic so that f32 is exact on them']
 
-def rand_dt(rng, maxq=F(1, 4)):
+def rand_dt(rng, maxq=F(1, 4), maxe=9):
     """a delta on which Duration::as_secs_f32 is exact: m*2^-e s with odd m < 8 (whole nanoseconds, nanos exact in f32)"""
     while True:
         if rng.random() < 0.15:
             return F(0)
-        d = F(rng.choice([1, 3, 5, 7]), 2 ** rng.randint(2, 9))
+        d = F(rng.choice([1, 3, 5, 7]), 2 ** rng.randint(2, maxe))
         if d <= maxq:
             return d
